@@ -114,8 +114,20 @@ def etcd_probe(ck):
         ck.notes.append("known finding proposed, not registered in known_findings.json: " + what)
 
 
+def recommit_history(reset):
+    """the same position committed again with other / empty metadata, offset 0 and -1 included, on exotic names"""
+    h = [reset, "meta 0=0", "join 6 c1 30000 30000 1 1 0", "sync 6 c1 @"]
+    for (t, p) in ((0, 0), (7, 1), (9, -1)):
+        for off in (42, 0, -1):
+            for md in (1, 2, 0, 3):
+                h.append("commit 6 c1 @ %d:%d:%d:%d" % (t, p, off, md))
+                h.append("fetch 6 %d:%d" % (t, p))
+    return h
+
+
 def run(ck):
-    G.run_property(ck, PROFILE, monitor, n_quick=200, n_thorough=2000, nops=45, rule=RULE)
+    G.run_property(ck, PROFILE, monitor, n_quick=200, n_thorough=2000, nops=45, rule=RULE,
+                   extra_histories=[recommit_history("reset"), recommit_history("reset etcd")])
     etcd_probe(ck)
 
 
